@@ -39,9 +39,12 @@ Section Net.
     fun x => if x =? r then v else f x.
 
   (* the record an honest router attaches when it forwards *)
-  Definition own_rec (r x : N) : arec := mkRec r (lat r x) (lab r x) (lab r x) true true true.
-  Definition push (r x : N) (a : ann) : ann :=
-    mkAnn (a_origin a) (own_rec r x :: a_chain a) (a_retlabel a) (a_stub a) (a_expires a) (a_info a) (a_dst_all a).
+  (* ... as AnnouncePingHandler.Handle builds it: the latency and the label of the link the
+     announcement ARRIVED on (forward label: towards the origin), the label of the link it is sent
+     out on (return label) *)
+  Definition own_rec (r from x : N) : arec := mkRec r (lat r from) (lab r from) (lab r x) true true true.
+  Definition push (r from x : N) (a : ann) : ann :=
+    mkAnn (a_origin a) (own_rec r from x :: a_chain a) (a_retlabel a) (a_stub a) (a_expires a) (a_info a) (a_dst_all a).
 
   (* what a router does with a delivered announcement: frames from itself are ignored by the
      switch; everything else goes to the handler *)
@@ -66,7 +69,7 @@ Section Net.
       (forall e, add_route (cfg r) now (c_tbl c r) (ann_route r (link_to r (cm_from m)) (cm_ann m)) <> Err e) ->
       admissible (cfg r) (c_tbl c r) (ann_route r (link_to r (cm_from m)) (cm_ann m)) ->
       deliver now (c_tbl c r) r m = Some (t', added, fw) ->
-      let news := map (fun x => mkCm (cm_id m) (push r x (cm_ann m)) r x) fw in
+      let news := map (fun x => mkCm (cm_id m) (push r (cm_from m) x (cm_ann m)) r x) fw in
       cstep c (mkC (upd (c_tbl c) r t') (pre ++ post ++ news)
                    (if added then (r, a_origin (cm_ann m)) :: c_learned c else c_learned c)
                    (c_hist c ++ map abs news) (abs m :: c_deliv c) (c_anns c)).
